@@ -57,6 +57,18 @@ SUITES.update({
     "BUILDER-SIM-T": builder_sim("typed"),
 })
 
+SUITES.update({
+    "QUAL": dict(module="MC_Qual", kind="bfs", spec="Spec", invariants=["C11_Sorted", "C11_Canonical", "C11_StepRefines"],
+                 properties=["Refines"], constraints=["Small"],
+                 quick=dict(SIZE='"q"', HIST="FALSE", DEPTH=0, K=2), thorough=dict(SIZE='"t"', HIST="FALSE", DEPTH=0, K=3),
+                 describe="sorted-Vec machine: every reachable content with at most K entries x every public operation; "
+                          "refinement of the reference map (PROPERTY A!Spec) and StrictlySorted"),
+    "QUAL-SIM": dict(module="MC_Qual", kind="simulate", spec="Spec", invariants=["C11_Sorted", "C11_Canonical", "EmitSeq"],
+                     quick=dict(SIZE='"q"', HIST="TRUE", DEPTH=12, K=99), thorough=dict(SIZE='"t"', HIST="TRUE", DEPTH=30, K=99),
+                     simulate=dict(quick="num=40", thorough="num=150"),
+                     describe="random operation sequences (TLC -simulate) replayed on one live collection, result and content compared after every call"),
+})
+
 # drivers: name -> dict(trace module, events per tier)
 DRIVERS = {
 }
@@ -71,6 +83,7 @@ PROPS = {
     "C05": dict(suites=PARSE_ALL, drivers=[]),
     "C09": dict(suites=BUILD_ALL + ["FORMAT-1", "FORMAT-2"], drivers=[]),
     "C10": dict(suites=PARSE_ALL + ["BUILDER-G", "BUILDER-T", "FORMAT-1"], drivers=[]),
+    "C11": dict(suites=["QUAL", "QUAL-SIM"], drivers=[]),
     "C13": dict(suites=["PARSE-SEP", "PARSE-PATH", "BUILDER-G", "BUILDER-SIM-G", "FORMAT-1"], drivers=[]),
 }
 
